@@ -179,8 +179,158 @@ func findingTags(a Schema, o Observed) []string {
 		if lost {
 			tags = append(tags, "F25:view-ref-targets-dropped")
 		}
+		// F28: the ACL of a workspace is one block of rules repeated (the statements of an inherited
+		// workspace were applied once more for every heir)
+		for _, it := range o.Dump.Items {
+			if n := len(it.ACL); it.Class == "ws" && n > 1 {
+				for k := 2; k <= n; k++ {
+					if n%k == 0 {
+						rep := true
+						for i := n / k; i < n && rep; i++ {
+							rep = reflect.DeepEqual(it.ACL[i], it.ACL[i%(n/k)])
+						}
+						if rep && inheritedWithGrants(a, it.QName) {
+							tags = append(tags, "F28:inherited-acl-block-repeated")
+							break
+						}
+					}
+				}
+			}
+		}
+		// F29: a reference field of a descriptor declared with targets was compiled without any
+		for _, x := range allWs(a) {
+			if x.w.Desc == nil {
+				continue
+			}
+			for _, it := range o.Dump.Items {
+				if it.QName == x.p.Name+"."+x.w.Name+"Descriptor" {
+					for _, d := range *x.w.Desc {
+						for _, f := range it.Fields {
+							if d.Ref != nil && len(d.Ref.Refs) > 0 && f.Name == d.Ref.Name && len(f.Refs) == 0 {
+								tags = append(tags, "F29:descriptor-ref-targets-dropped")
+							}
+						}
+					}
+				}
+			}
+		}
 	}
-	return tags
+	// F26, F27: the shapes on which the old name resolution goes wrong (it refuses the schema or compiles
+	// something else); whether it did is judged by the oracle
+	if sameNameInTwoPackages(a) {
+		tags = append(tags, "F26:entity-name-in-two-packages")
+	}
+	if o.Stage != "ok" && unqualifiedInherits(a) {
+		tags = append(tags, "F27:unqualified-inherits-refused")
+	}
+	if descRefTargets(a) {
+		tags = append(tags, "shape:descriptor-ref-targets")
+	}
+	return uniqTags(tags)
+}
+
+func uniqTags(l []string) []string {
+	seen := map[string]bool{}
+	var res []string
+	for _, t := range l {
+		if !seen[t] {
+			seen[t] = true
+			res = append(res, t)
+		}
+	}
+	return res
+}
+
+// is the workspace q inherited by another one, and does it hold grants or revokes?
+func inheritedWithGrants(a Schema, q string) bool {
+	for _, x := range allWs(a) {
+		if x.p.Name+"."+x.w.Name != q {
+			continue
+		}
+		grants := false
+		for _, i := range x.w.Items {
+			grants = grants || i.Grant != nil
+		}
+		if !grants {
+			return false
+		}
+		for _, y := range allWs(a) {
+			for _, inh := range y.w.Inh {
+				pp := inh.Pkg
+				if pp == "" {
+					pp = y.p.Name
+				}
+				if pp+"."+inh.Name == q {
+					return true
+				}
+			}
+		}
+	}
+	return false
+}
+
+// names_distinct of Model.v, negated: an entity name (workspace, descriptor, table, nested table, type, view,
+// function, projector, role, rate, limit) occurs in two packages
+func sameNameInTwoPackages(a Schema) bool {
+	owner := map[string]string{}
+	clash := false
+	add := func(pkg, n string) {
+		if o, ok := owner[n]; ok && o != pkg {
+			clash = true
+		}
+		owner[n] = pkg
+	}
+	for _, x := range allWs(a) {
+		add(x.p.Name, x.w.Name)
+		if !x.w.Abstract {
+			add(x.p.Name, x.w.Name+"Descriptor")
+		}
+		for _, i := range x.w.Items {
+			switch {
+			case i.Type != nil:
+				add(x.p.Name, i.Type.Name)
+			case i.View != nil:
+				add(x.p.Name, i.View.Name)
+			case i.Proj != nil:
+				add(x.p.Name, i.Proj.Name)
+			case i.Func != nil:
+				add(x.p.Name, i.Func.Name)
+			case i.Role != nil:
+				add(x.p.Name, i.Role.Name)
+			case i.Rate != nil:
+				add(x.p.Name, i.Rate.Name)
+			case i.Limit != nil:
+				add(x.p.Name, i.Limit.Name)
+			}
+		}
+	}
+	allTables(a, func(p *Pkg, w *Ws, root, t *Table, nested bool) { add(p.Name, t.Name) })
+	return clash
+}
+
+// inherits_qualified of Model.v, negated
+func unqualifiedInherits(a Schema) bool {
+	res := false
+	for _, x := range allWs(a) {
+		for _, q := range x.w.Inh {
+			res = res || q.Pkg == ""
+		}
+	}
+	allTables(a, func(p *Pkg, w *Ws, root, t *Table, nested bool) { res = res || (t.Inh != nil && t.Inh.Pkg == "") })
+	return res
+}
+
+func descRefTargets(a Schema) bool {
+	for _, x := range allWs(a) {
+		if x.w.Desc != nil {
+			for _, d := range *x.w.Desc {
+				if d.Ref != nil && len(d.Ref.Refs) > 0 {
+					return true
+				}
+			}
+		}
+	}
+	return false
 }
 
 func shape(a Schema) (key string, nontrivial bool, tags []string) {
